@@ -3,7 +3,7 @@
  "name": "gen32_single",
  "props": ["C16"],
  "level": "U",
- "tier": "wip",
+ "tier": "quick",
  "harness": "h_g32_single",
  "enforce": ["ext2fs_mark_generic_bitmap", "ext2fs_unmark_generic_bitmap", "ext2fs_test_generic_bitmap"],
  "sources": ["lib/ext2fs/bitops.c"],
